@@ -1,1 +1,3 @@
 //! shared generators
+pub mod certs;
+pub mod cmd;
